@@ -343,6 +343,43 @@ theorem C14_tracks_v1_all_or_nothing (o : EngineModel.TracksV1.Fl.FOps) (d : Tra
 
 end tracksV1
 
+/-! ### one table over the four models -/
+section all
+open EngineModel.Api EngineModel.Db EngineModel.Spec.Stmts
+
+/-- A public mutating operation of any of the four concrete API models (with its arguments). -/
+inductive ApiOp where
+  | cratesV1 (op : CratesV1.Op)
+  | cratesV2 (op : V2.Op)
+  | tracksV2 (ops : TracksV2.FOps) (s : TracksV2.Schema) (op : TracksV2.TOp)
+  | tracksV1 (o : EngineModel.TracksV1.Fl.FOps) (op : TracksV1.TOp)
+
+/-- The prior state the statements of a call depend on: the tables of each model. -/
+structure Prior where
+  cratesV1 : CratesV1.Db
+  cratesV2 : V2.Db
+  tracksV2 : TracksV2.TDb
+
+/-- `shapeOf s op prior`: the statement kinds the call issues on `prior` when nothing fails (`s` = the schema
+version for the 1.x crate model, the only one of the four whose statements depend on it). -/
+def shapeOf (s : EngineModel.Pure.Detect.Schema) : ApiOp → Prior → List CmdKind
+  | .cratesV1 op, p => CratesV1.shapeOf s op p.cratesV1
+  | .cratesV2 op, p => V2.shapeOf op p.cratesV2
+  | .tracksV2 ops s2 op, p => TracksV2.topShapeOf ops s2 op p.tracksV2
+  | .tracksV1 o op, _ => TracksV1.topShapeOf o op
+
+/-- **Every modelled public mutating operation, on every schema and prior state, issues an atomic shape** — hence
+(`C14_all_or_nothing`) fails atomically at every statement position. -/
+theorem C14_shapeOf_atomic (s : EngineModel.Pure.Detect.Schema) (op : ApiOp) (p : Prior) :
+    atomicShape (shapeOf s op p) = true := by
+  cases op with
+  | cratesV1 op => exact C14_crates_v1_shape s op p.cratesV1
+  | cratesV2 op => exact C14_crates_v2_shape op p.cratesV2
+  | tracksV2 ops s2 op => exact C14_tracks_v2_shape ops s2 op p.tracksV2
+  | tracksV1 o op => exact (C14_tracks_v1_shape o op).1
+
+end all
+
 /-! ### non-vacuity -/
 
 -- shapes the library is observed to issue
